@@ -39,6 +39,36 @@ def corpus_for(prop):
     return out
 
 
+def refactors_for(prop):
+    """Behaviour-preserving refactorings (refactors/<id>/patch.diff): every check must stay silent on them."""
+    out = []
+    for d in sorted(glob.glob(os.path.join(VERIF, "refactors", "*"))):
+        patch = os.path.join(d, "patch.diff")
+        meta = os.path.join(d, "meta.json")
+        if not os.path.exists(patch):
+            continue
+        props = None
+        if os.path.exists(meta):
+            props = json.load(open(meta)).get("properties")
+        if props is None or prop in props:
+            out.append({"id": os.path.basename(d), "patch": patch})
+    return out
+
+
+def run_refactor(repo, prop, m):
+    tmp = overlay_dir_for_patch(repo, m["patch"])
+    if tmp is None:
+        return {"id": m["id"], "status": "skipped", "why": "patch does not apply to the current tree"}
+    try:
+        r = run([BIN, "-repo", repo, "-verif", VERIF, "-prop", prop, "-tier", "quick", "-no-evidence", "-overlay-dir", tmp])
+    finally:
+        shutil.rmtree(tmp, ignore_errors=True)
+    if "UNDECIDED property=" in r.stdout:
+        return {"id": m["id"], "status": "skipped", "why": "does not type-check: " + r.stdout.strip().splitlines()[0][:160]}
+    alarms = sorted(set(re.findall(r"^(?:VIOLATED|UNDECIDED) rule=(\S+) construct=\"([^\"]*)\"", r.stdout, re.M)))
+    return {"id": m["id"], "status": "alarm" if alarms else "silent", "alarms": [list(a) for a in alarms]}
+
+
 def overlay_dir_for_patch(repo, patch):
     """Applies patch to copies of the files it touches; returns dir or None if it does not apply."""
     tmp = tempfile.mkdtemp(prefix="cosilint-ov-")
@@ -104,8 +134,26 @@ def one(prop, repo):
         prop, len(killed) + len(survived), len(killed), len(survived), len(skipped)))
     for x in survived:
         print("   SELFTEST-SURVIVED %s (%s): the rules do not see this change" % (x["id"], x["kind"]))
+    refs = refactors_for(prop)
+    ref_results = []
+    if refs:
+        with ThreadPoolExecutor(max_workers=6) as ex:
+            ref_results = list(ex.map(lambda m: run_refactor(repo, prop, m), refs))
+    alarmed = [x for x in ref_results if x["status"] == "alarm"]
+    silent = [x for x in ref_results if x["status"] == "silent"]
+    if ref_results:
+        print("-- false-alarm self-test for %s: %d behaviour-preserving refactorings applied, %d silent, %d alarmed" % (prop, len(silent) + len(alarmed), len(silent), len(alarmed)))
+    for x in alarmed:
+        print("   SELFTEST-FALSE-ALARM %s: %s" % (x["id"], "; ".join("%s %s" % (a[0], a[1][:90]) for a in x["alarms"])))
     try:
         ev = json.load(open(ev_path))
+        ev["coverage"]["refactor_selftest"] = {
+            "what": "behaviour-preserving refactorings of /repo written by independent sub-agents; every check must stay silent on them; not part of the verdict",
+            "applied": len(silent) + len(alarmed),
+            "silent": len(silent),
+            "alarmed": {x["id"]: x["alarms"] for x in alarmed},
+            "skipped": [{"id": x["id"], "why": x.get("why", "")} for x in ref_results if x["status"] == "skipped"],
+        }
         ev["coverage"]["checker_selftest"] = {
             "what": "in-memory overlay mutants of /repo (anchored edits and independently seeded patches); not part of the verdict",
             "mutants_applied": len(killed) + len(survived),
